@@ -728,6 +728,12 @@ class Ledger(Monitor):
         if not self.enabled or self.stopped:
             return
         if not run.inflight and run.status() in ("running", "resuming") and not run.notes.get("max_steps"):
+            # the workflow hangs: if a join got some but not all of its arrivals and nothing can bring the rest, the property
+            # asks for the unreachable-join failure, not for a workflow that sits there
+            for jn, route in self.partial_joins():
+                run.viol("C07", "hang_with_unreachable_join", "nothing is in flight or on offer (status %s) while join %s route %s "
+                         "is partially satisfied and can no longer be satisfied: expected failed with an unreachable-join error"
+                         % (run.status(), jn, route), subject=jn, cause=self._cause(run, jn, route))
             for (jn, route), j in self.joins.items():
                 if j["credits"] > 0:
                     run.viol("C07", "join_satisfied_never_ran", "nothing is in flight or on offer (status %s) but join %s route %s "
